@@ -2,7 +2,6 @@ package main
 
 import (
 	"bytes"
-	"context"
 	"fmt"
 	"go/format"
 	"os"
@@ -134,7 +133,8 @@ func c02Accept(name, src string) (*c02Tmpl, bool) {
 }
 
 var c02Values = []string{"27\"", "a&", "<", "ab'", "naïve>", "1", "", "0", "a", "b", "d", "x y", "a|b", "p|q|r", "x<y", `he said "hi"`, "it's & co", "</script>", "color:red", "/path?q=1&r=2",
-	"data-a=1,hidden", "title=t<,off=!", "é日本", "1", "1", "a", "<i>|</i>", "pre|mid|post", "only", "${x}`", "javascript:alert(1)", "width:1px;color:blue"}
+	"data-a=1,hidden", "title=t<,off=!", "é日本", "1", "1", "a", "<i>|</i>", "pre|mid|post", "only", "${x}`", "javascript:alert(1)", "width:1px;color:blue",
+	"sel=&!,rows=3", "chk=&,x=&!,t=*a<b,n=*", "lt;", "&amp;", "#34;", "\"><img src=x onerror=alert(1)>", "' onmouseover='x", "</p><p>", "amp", "a\x00b"}
 
 func c02ArgSet(r *rng) map[string]string {
 	v := map[string]string{}
@@ -370,9 +370,29 @@ func c02Env(t *c02Tmpl, v map[string]string) (string, bool) {
 				ok = false
 				continue
 			}
-			var sb strings.Builder
-			err := templ.RenderAttributes(context.Background(), &sb, c02oracle.AttrsOf(v[mm[1]]))
-			put(ex.text, []string{mm[1]}, "R/"+hx(sb.String())+"/"+b01(err != nil))
+			// what the map renders is computed by the Lean model of RenderAttributes from the map's description
+			_, desc := c02oracle.AttrsDesc(v[mm[1]])
+			dk := make([]string, 0, len(desc))
+			for k := range desc {
+				dk = append(dk, k)
+			}
+			sort.Sort(sort.Reverse(sort.StringSlice(dk)))
+			items := make([]string, len(dk))
+			for i, k := range dk {
+				items[i] = hx(k) + "~" + desc[k][0]
+				if desc[k][0] != "spn" {
+					if desc[k][0] == "s" || desc[k][0] == "sp" {
+						items[i] += "~" + hx(desc[k][1])
+					} else {
+						items[i] += "~" + desc[k][1]
+					}
+				}
+			}
+			enc := "-"
+			if len(items) > 0 {
+				enc = strings.Join(items, "+")
+			}
+			put(ex.text, []string{mm[1]}, "RA/"+enc)
 		case "js":
 			if m == nil || m[1] != "J" {
 				ok = false
@@ -546,6 +566,11 @@ func runC02(e *emitter, tier string, seed uint64) {
 // accepted alone is outside the property's quantifier ("every template that templ generate accepts"): it is split
 // until the pieces are accepted (or a single template is dropped).
 func c02RunBatch(e *emitter, r *rng, scratch, root, tag string, tmpls []*c02Tmpl, nargs int) {
+	c02RunBatchOp(e, r, scratch, root, tag, tmpls, nargs, "render")
+}
+
+// c02RunBatchOp: the same, with the name of the per-render operation (C01's composition check reuses the pipeline).
+func c02RunBatchOp(e *emitter, r *rng, scratch, root, tag string, tmpls []*c02Tmpl, nargs int, op string) {
 	if len(tmpls) == 0 {
 		return
 	}
@@ -565,8 +590,8 @@ func c02RunBatch(e *emitter, r *rng, scratch, root, tag string, tmpls []*c02Tmpl
 				e.count("template-rejected-in-batch-context")
 				return
 			}
-			c02RunBatch(e, r, scratch, root, tag+"a", tmpls[:len(tmpls)/2], nargs)
-			c02RunBatch(e, r, scratch, root, tag+"b", append([]*c02Tmpl{}, tmpls[len(tmpls)/2:]...), nargs)
+			c02RunBatchOp(e, r, scratch, root, tag+"a", tmpls[:len(tmpls)/2], nargs, op)
+			c02RunBatchOp(e, r, scratch, root, tag+"b", append([]*c02Tmpl{}, tmpls[len(tmpls)/2:]...), nargs, op)
 			return
 		} else if err != nil {
 			var all strings.Builder
@@ -613,7 +638,7 @@ func c02RunBatch(e *emitter, r *rng, scratch, root, tag string, tmpls []*c02Tmpl
 			if !ok {
 				e.count("value-table-incomplete")
 			}
-			e.emit(fmt.Sprintf("render %s %d", b, i), "render", c.t.ast, env, f[1], f[2], f[3], hx(c.t.src))
+			e.emit(fmt.Sprintf("%s %s %d", op, b, i), op, c.t.ast, env, f[1], f[2], f[3], hx(c.t.src))
 		}
 		os.RemoveAll(dir)
 	}
